@@ -188,6 +188,95 @@ def same_lab_case(args):
         shutil.rmtree(tmp, ignore_errors=True)
 
 
+MAIN_KILL_SCRIPT = r"""
+import json, os, sys
+import labtech
+
+
+@labtech.task
+class MSaver:
+    kind: str
+    n: int
+
+    def run(self):
+        ctx = self.context or {}
+        k = ctx.get('kill_at')
+        if k:
+            import signal
+            from verif_lt.faults import LineInjector, in_files
+
+            def die():
+                os.kill(os.getpid(), signal.SIGKILL)
+                return RuntimeError('unreachable')
+            LineInjector(in_files('cache.py', 'storage.py'), at=k, exc_factory=die).__enter__()
+        return ('R', 'MSaver', self.kind, self.n, ctx.get('epoch'), ['%04d' % i + 'x' * 100 for i in range(self.n)])
+
+
+if __name__ == '__main__':
+    from verif_lt.common import silence_labtech
+    silence_labtech()
+    storage, backend, k = sys.argv[1], sys.argv[2], int(sys.argv[3])
+    kw = dict(disable_progress=True, disable_top=True)
+    lab = labtech.Lab(storage=storage, runner_backend=backend, max_workers=1, notebook=False, context={'epoch': 1})
+    t = MSaver(kind='small', n=3)
+    r1 = lab.run_tasks([t], **kw)
+    out = {'first_ok': t in r1 and bool(lab.is_cached(t))}
+    lab.context = {'epoch': 2, 'kill_at': k}
+    r2 = lab.run_tasks([t], bust_cache=True, **kw)
+    out['second_returned'] = t in r2
+    lab2 = labtech.Lab(storage=storage, runner_backend='serial', notebook=False, context={'epoch': 3})
+    t2 = MSaver(kind='small', n=3)
+    try:
+        out['is_cached'] = bool(lab2.is_cached(t2))
+        out['listed'] = any(x == t2 for x in lab2.cached_tasks([MSaver]))
+    except BaseException as e:
+        out['query_error'] = f'{type(e).__name__}: {e}'
+        out['is_cached'] = out.get('is_cached', False)
+        out['listed'] = False
+    try:
+        r3 = lab2.run_tasks([t2], **kw)
+        out['later_run_ok'] = t2 in r3
+        out['epoch_seen'] = r3[t2][4] if t2 in r3 else None
+    except BaseException as e:
+        out['later_run_ok'] = False
+        out['later_run_error'] = f'{type(e).__name__}: {e}'
+    print(json.dumps(out))
+"""
+
+
+def main_script_kill_case(args):
+    """Task type defined in the script being run (module __main__), real process backend: cached,
+    then a bust_cache re-run whose worker SIGKILLs itself at the k-th line of the save; a fresh Lab
+    in the same script judges what is left."""
+    backend, k = args
+    from ..realrun import py_env, run_isolated
+    tmp = tmpdir('c13m_')
+    try:
+        script = os.path.join(tmp, 'c13_main_script.py')
+        with open(script, 'w') as f:
+            f.write(MAIN_KILL_SCRIPT)
+        rc, so, se = run_isolated([sys.executable, script, os.path.join(tmp, 'st'), backend, str(k)], env=py_env(0), timeout=240, cwd=tmp)
+        d = f'MSaver defined in the main script, {backend} backend: cached, then bust_cache re-run whose worker is SIGKILLed at save line #{k}'
+        if rc != 0:
+            return [('main-script-run-failed:overwrite', f'{d}: exited {rc}: {se[-400:]}')], False
+        o = json.loads(so.strip().splitlines()[-1])
+        res = []
+        if not o['first_ok']:
+            res.append(('main-script-first-run-not-cached:overwrite', f'{d}: the first (undisturbed) run was not cached'))
+        if 'query_error' in o:
+            res.append(('is_cached-raised:overwrite', f'{d}: {o["query_error"]}'))
+        if o['is_cached'] or o['listed']:
+            if not o.get('later_run_ok'):
+                res.append(('reported-cached-but-unloadable:overwrite', f'{d}: reported as cached (is_cached={o["is_cached"]}, listed={o["listed"]}) but a later run fails {o.get("later_run_error", "")}'))
+            elif o.get('epoch_seen') not in (1, 2):
+                res.append(('reported-cached-but-executed:overwrite', f'{d}: reported as cached but the value was recomputed (epoch {o.get("epoch_seen")})'))
+        elif not o.get('later_run_ok'):
+            res.append(('not-cached-but-later-run-fails:overwrite', f'{d}: not reported as cached, yet a later run fails {o.get("later_run_error", "")}'))
+        return res, not o['second_returned']
+    finally:
+        shutil.rmtree(tmp, ignore_errors=True)
+
+
 def count_lines(case):
     top = tmpdir('c13c_')
     try:
@@ -257,18 +346,28 @@ def run(tier: str, seed: int) -> Result:
             n_same_killed += 1 if killed else 0
             for key, msg in res:
                 viols.append(Violation('C13', key, msg, {'tier': tier, 'clause': key, 'msg': msg}, size=2000))
+        # task types defined in the main script, real spawn (and fork) workers killed mid-overwrite
+        mk = [('spawn', k) for k in (range(1, nl + 1) if tier != 'quick' else range(2, nl + 1, 7))] + [('fork', k) for k in (range(1, nl + 1, 3) if tier != 'quick' else range(3, nl + 1, 17))]
+        n_main = n_main_killed = 0
+        for res, killed in pmap(main_script_kill_case, mk):
+            n_main += 1
+            n_main_killed += 1 if killed else 0
+            for key, msg in res:
+                viols.append(Violation('C13', key, msg, {'tier': tier, 'clause': key, 'msg': msg}, size=2500))
     finally:
         for t in tops:
             shutil.rmtree(t, ignore_errors=True)
     cov = {
         'same_lab_real_kill_histories': n_same,
         'same_lab_histories_in_which_the_worker_died': n_same_killed,
-        'evaluations': n_states + n_kills + n_same,
+        'main_script_real_kill_histories': n_main,
+        'main_script_histories_in_which_the_worker_died': n_main_killed,
+        'evaluations': n_states + n_kills + n_same + n_main,
         'distinct_nontrivial': n_states,
-        'rule': ('crash states = every prefix of the raw-operation log (mkdir/open-trunc/write/close) of a real save + 3 torn variants per write + flushed variant per '
+        'rule': ('crash states = every prefix of the raw-operation log (mkdir/open-trunc/write/close/unlink/rmdir/rename) of a real save + every subset of a run of unlinks in one directory + 3 torn variants per write + flushed variant per '
                  'Python-level write call; x {pickle small, json small, pickle multi-frame (+json multi thorough)} x {first save, overwrite}; each materialised and '
                  'checked by the recovery oracle (is_cached, cached_tasks, run_tasks on a fresh Lab); real SIGKILLs of a forked saver at traced lines must leave one '
-                 'of the prefix states; plus histories on ONE Lab object over the real fork backend (cache, re-run with bust_cache whose worker SIGKILLs itself at save line k, then ask the same Lab); '
+                 'of the prefix states; plus histories on ONE Lab object over the real fork backend (cache, re-run with bust_cache whose worker SIGKILLs itself at save line k, then ask the same Lab), and the same history with a task type defined in the main script on the real spawn / fork backends; '
                  'distinct_nontrivial = materialised crash states'),
         'samples': samples,
         'real_kills': n_kills,
